@@ -116,6 +116,7 @@ def init : State := {}
 inductive Prim
   -- durable (file system) steps, one per syscall of the code
   | rmCmp (n : Name)
+  | rmCmpIf (n : Name) (h : String)                -- remove `<n>.cmp` unless it records another version
   | createPart (n : Name) (now : Int)              -- os.Create: new inode or truncate to 0
   | truncPart (n : Name) (size : Nat)              -- fh.Truncate(size): zero fill
   | writeIno (ino : Nat) (beg : Nat) (data : Body) (now : Int)
@@ -153,7 +154,7 @@ inductive Prim
 deriving Repr
 
 def Prim.durable : Prim → Bool
-  | .rmCmp .. | .createPart .. | .truncPart .. | .writeIno .. | .cmpTmp .. | .cmpCommit ..
+  | .rmCmp .. | .rmCmpIf .. | .createPart .. | .truncPart .. | .writeIno .. | .cmpTmp .. | .cmpCommit ..
   | .rmPart .. | .rmFull .. | .renPartFull .. | .renFullWait .. | .logAppend ..
   | .renWaitFinal .. | .rmFinal .. | .corrupt .. | .setMtime .. | .setCmpMtime .. => true
   | _ => false
@@ -174,6 +175,10 @@ def eraseFirst {α : Type} (p : α → Bool) : List α → List α
 
 def applyDisk (d : Disk) : Prim → Disk
   | .rmCmp n => { d with cmp := upd d.cmp n none }
+  | .rmCmpIf n h =>
+    match d.cmp n with
+    | some c => if c.hash = h then { d with cmp := upd d.cmp n none } else d
+    | none => d
   | .createPart n now =>
     match d.part n with
     | some i => { d with body := upd d.body i [], written := upd d.written i [],
